@@ -159,11 +159,13 @@ Definition encode_port_with (names : list (text * Z)) (ext : Z) (padded : bool)
                           end
             end in
   let* lb := port_link_bytes link in
+  (* if port > 14: _ext_port = UINT.encode(port); port = 15   (the 4-bit identifier holds 1..14) *)
+  let* (p1, extb) := (if 14 <? p then let* e := UINT_encode p in Ok (15, e) else Ok (p, [])) in
   let* (p', lenb) := (if 1 <? len lb
-                       then let* l := USINT_encode (len lb) in Ok (Z.lor p ext, l)
-                       else Ok (p, [])) in
+                       then let* l := USINT_encode (len lb) in Ok (Z.lor p1 ext, l)
+                       else Ok (p1, [])) in
   let* pb := USINT_encode p' in
-  let s := pb ++ lenb ++ lb in
+  let s := pb ++ lenb ++ extb ++ lb in
   Ok (s ++ (if odd_len s then [0] else [])).
 Definition encode_port : bool -> Z + list Z -> plink -> res bytes :=
   encode_port_with port_segments port_extended_link.
